@@ -11,6 +11,9 @@
 (*   use   INSERT INTO out SELECT * FROM tmp            looks tmp up        *)
 (*   bad   text the parser rejects                      InvalidSyntax       *)
 (*   unsup a statement type without extractor           Unsupported / skip *)
+(*   dial  SELECT a1 INTO outd FROM src: a statement only the tsql grammar *)
+(*         accepts; a run is analysed under "ansi" or under "tsql_ns"      *)
+(*         (T-SQL without semicolons: the script is split by the parser)   *)
 (* Providers: own providers p1 (knows src only) and p2 (also knows tmp as  *)
 (* <<z1>>), both truthy, and the shared default "dflt" (falsy: never read).*)
 (*                                                                         *)
@@ -19,11 +22,12 @@
 (* Ideal:  Solo(script, p, silent, fault) - the run on a fresh provider in *)
 (* a fresh process; the session of a provider is empty outside runs.       *)
 (* Deviations (expected-fail self tests): D_NO_DEREGISTER_ON_ERROR,        *)
-(* D_SESSION_AFTER_BASE, D_TRUTHY_DEFAULT, D_SILENT_ABORTS.                *)
+(* D_SESSION_AFTER_BASE, D_TRUTHY_DEFAULT, D_SILENT_ABORTS,                *)
+(* D_SHARED_PARSE_CACHE.                                                   *)
 (***************************************************************************)
 EXTENDS Naturals, Sequences, FiniteSets, TLC, Json
 
-CONSTANTS Runs, Provs, MaxStmts, Known, Emit, Kinds, MaxFault, Record
+CONSTANTS Runs, Provs, MaxStmts, Known, Emit, Kinds, MaxFault, Record, Dias
 
 None == "none"
 Star == <<"*">>
@@ -35,40 +39,46 @@ Scripts == UNION {[1..n -> Kinds] : n \in 1..MaxStmts}
 
 VARIABLES sess,   \* provider -> columns of tmp registered in its session, or None
           run,    \* run -> record
+          pcache, \* statement texts whose tsql parse is cached - per analyser, i.e. per run (shared under D_SHARED_PARSE_CACHE)
           log     \* history: events in the order they happened
-vars == <<sess, run, log>>
+vars == <<sess, run, pcache, log>>
 
-New == [st |-> "new", p |-> None, script |-> <<>>, silent |-> FALSE, fault |-> 0, k |-> 1, seen |-> <<>>,
+New == [st |-> "new", p |-> None, script |-> <<>>, silent |-> FALSE, fault |-> 0, dia |-> "ansi", k |-> 1, seen |-> <<>>,
         outcome |-> None, lookups |-> 0, warnings |-> 0]
 
 \* ---------------------------------------------------------------- ideal: the run alone on a fresh provider
-RECURSIVE SoloFrom(_, _, _, _, _, _, _, _)
-SoloFrom(script, p, silent, fault, k, local, seen, lookups) ==
+RECURSIVE SoloFrom(_, _, _, _, _, _, _, _, _)
+SoloFrom(script, p, silent, fault, k, local, seen, lookups, dia) ==
    IF k > Len(script) THEN [outcome |-> "ok", seen |-> seen]
    ELSE LET s == script[k] IN
-        CASE s \in {"mk1", "mk2"} -> SoloFrom(script, p, silent, fault, k + 1, Cols(s), seen, lookups)
-          [] s = "use" -> IF p = "dflt" THEN SoloFrom(script, p, silent, fault, k + 1, local, Append(seen, Star), lookups)
+        CASE s \in {"mk1", "mk2"} -> SoloFrom(script, p, silent, fault, k + 1, Cols(s), seen, lookups, dia)
+          [] s = "use" -> IF p = "dflt" THEN SoloFrom(script, p, silent, fault, k + 1, local, Append(seen, Star), lookups, dia)
                           ELSE IF lookups + 1 = fault THEN [outcome |-> "ProviderFault", seen |-> <<>>]
                           ELSE LET a == IF local # NoCols THEN local ELSE IF Base(p) # NoCols THEN Base(p) ELSE Star IN
-                               SoloFrom(script, p, silent, fault, k + 1, local, Append(seen, a), lookups + 1)
+                               SoloFrom(script, p, silent, fault, k + 1, local, Append(seen, a), lookups + 1, dia)
           [] s = "bad" -> [outcome |-> "InvalidSyntaxException", seen |-> <<>>]      \* a failed run shows nothing but its exception
-          [] s = "unsup" -> IF silent THEN SoloFrom(script, p, silent, fault, k + 1, local, seen, lookups)
+          [] s = "dial" -> IF dia = "tsql_ns" THEN SoloFrom(script, p, silent, fault, k + 1, local, Append(seen, <<"into">>), lookups, dia)
+                           ELSE [outcome |-> "InvalidSyntaxException", seen |-> <<>>]
+          [] s = "unsup" -> IF silent THEN SoloFrom(script, p, silent, fault, k + 1, local, seen, lookups, dia)
                             ELSE [outcome |-> "UnsupportedStatementException", seen |-> <<>>]
-Solo(script, p, silent, fault) == SoloFrom(script, p, silent, fault, 1, NoCols, <<>>, 0)
+Solo(script, p, silent, fault, dia) == SoloFrom(script, p, silent, fault, 1, NoCols, <<>>, 0, dia)
 WithoutUnsup(script) == SelectSeq(script, LAMBDA s : s # "unsup")
 
 \* ---------------------------------------------------------------- machine
 Running(p) == {r \in Runs : run[r].st \in {"running", "leaving"} /\ run[r].p = p}
 Ev(r, e, a) == [r |-> r, e |-> e, a |-> a]
 Log(e) == IF Record THEN Append(log, e) ELSE log
-Init == sess = [p \in Provs |-> NoCols] /\ run = [r \in Runs |-> New] /\ log = <<>>
+Init == sess = [p \in Provs |-> NoCols] /\ run = [r \in Runs |-> New] /\ log = <<>> /\ pcache = {}
 \* a run enters the session of its provider; concurrent runs have their own providers (the shared default excepted)
 Begin(r) == /\ run[r].st = "new"
-            /\ \E p \in Provs, sc \in Scripts, silent \in BOOLEAN, f \in 0..MaxFault :
+            /\ \E p \in Provs, sc \in Scripts, silent \in BOOLEAN, f \in 0..MaxFault, dia \in Dias :
                  /\ (p # "dflt" => Running(p) = {})
                  /\ (f > 0 => p # "dflt")
-                 /\ run' = [run EXCEPT ![r] = [New EXCEPT !.st = "running", !.p = p, !.script = sc, !.silent = silent, !.fault = f]]
-                 /\ log' = Log([r |-> r, e |-> "begin", p |-> p, script |-> sc, silent |-> silent, fault |-> f])
+                 /\ (dia = "tsql_ns" => (~silent /\ \A i \in DOMAIN sc : sc[i] \notin {"bad", "unsup"}))   \* the whole script must parse to be split
+                 /\ run' = [run EXCEPT ![r] = [New EXCEPT !.st = "running", !.p = p, !.script = sc, !.silent = silent, !.fault = f, !.dia = dia]]
+                 /\ log' = Log([r |-> r, e |-> "begin", p |-> p, script |-> sc, silent |-> silent, fault |-> f, dia |-> dia])
+                 \* splitting a T-SQL script without semicolons parses it once and caches every statement's parse
+                 /\ pcache' = IF dia = "tsql_ns" /\ "D_SHARED_PARSE_CACHE" \in Known THEN pcache \cup {sc[i] : i \in DOMAIN sc} ELSE pcache
             /\ UNCHANGED sess
 Finish(rr, outcome) == [rr EXCEPT !.st = "leaving", !.outcome = outcome, !.seen = IF outcome = "ok" THEN @ ELSE <<>>]
 \* one statement: analyse it (lookups happen inside), then register what it teaches
@@ -84,6 +94,9 @@ StepOf(r) ==
                              THEN (IF Base(p) # NoCols THEN Base(p) ELSE IF sess[p] # NoCols THEN sess[p] ELSE Star)
                              ELSE (IF sess[p] # NoCols THEN sess[p] ELSE IF Base(p) # NoCols THEN Base(p) ELSE Star) IN
                     [run |-> [rr EXCEPT !.k = @ + 1, !.seen = Append(@, a), !.lookups = @ + 1], sess |-> sess[p]]
+          [] s = "dial" -> IF rr.dia = "tsql_ns" \/ "dial" \in pcache     \* a cached tsql parse is served whatever the dialect
+                           THEN [run |-> [rr EXCEPT !.k = @ + 1, !.seen = Append(@, <<"into">>)], sess |-> sess[p]]
+                           ELSE [run |-> Finish(rr, "InvalidSyntaxException"), sess |-> sess[p]]
           [] s = "bad" -> [run |-> Finish(rr, "InvalidSyntaxException"), sess |-> sess[p]]
           [] s = "unsup" ->
                IF rr.silent /\ "D_SILENT_ABORTS" \notin Known
@@ -93,11 +106,12 @@ Analyze(r) == /\ run[r].st = "running"
               /\ LET n == StepOf(r) IN
                  /\ run' = [run EXCEPT ![r] = n.run]
                  /\ sess' = [sess EXCEPT ![run[r].p] = n.sess]
+                 /\ UNCHANGED pcache
                  /\ log' = Log([r |-> r, e |-> "step", k |-> run[r].k, answers |-> [p \in Provs |-> IF sess'[p] # NoCols THEN sess'[p] ELSE IF Base(p) # NoCols THEN Base(p) ELSE Star]])
 \* leaving the session deregisters - on every path
 Exit(r) == /\ run[r].st = "leaving"
            /\ sess' = IF "D_NO_DEREGISTER_ON_ERROR" \in Known /\ run[r].outcome # "ok" THEN sess ELSE [sess EXCEPT ![run[r].p] = NoCols]
-           /\ run' = [run EXCEPT ![r].st = "exited"]
+           /\ run' = [run EXCEPT ![r].st = "exited"] /\ UNCHANGED pcache
            /\ log' = Log([r |-> r, e |-> "exit", outcome |-> run[r].outcome, seen |-> run[r].seen, warnings |-> run[r].warnings,
                           answers |-> [p \in Provs |-> IF sess'[p] # NoCols THEN sess'[p] ELSE IF Base(p) # NoCols THEN Base(p) ELSE Star]])
 Next == \E r \in Runs : Begin(r) \/ Analyze(r) \/ Exit(r)
@@ -107,14 +121,14 @@ Spec == Init /\ [][Next]_vars
 SessionEmptyOutsideRuns == \A p \in Provs : ({r \in Runs : run[r].st \in {"running", "leaving"} /\ run[r].p = p} = {}) => sess[p] = NoCols
 ResultIndependentOfHistory ==
    \A r \in Runs : run[r].st \in {"leaving", "exited"} =>
-       LET i == Solo(run[r].script, run[r].p, run[r].silent, run[r].fault) IN run[r].outcome = i.outcome /\ run[r].seen = i.seen
+       LET i == Solo(run[r].script, run[r].p, run[r].silent, run[r].fault, run[r].dia) IN run[r].outcome = i.outcome /\ run[r].seen = i.seen
 ReusedProviderAnswersAsFresh ==     \* what a provider answers outside runs is what it knows itself
    \A p \in Provs : ({r \in Runs : run[r].st \in {"running", "leaving"} /\ run[r].p = p} = {}) =>
        (IF sess[p] # NoCols THEN sess[p] ELSE Base(p)) = Base(p)
 OutcomeInContract == \A r \in Runs : run[r].outcome \in {None, "ok", "InvalidSyntaxException", "UnsupportedStatementException", "ProviderFault"}
 SilentSkipEqualsRemoval ==
    \A r \in Runs : (run[r].st \in {"leaving", "exited"} /\ run[r].silent) =>
-       LET i == Solo(WithoutUnsup(run[r].script), run[r].p, FALSE, run[r].fault) IN
+       LET i == Solo(WithoutUnsup(run[r].script), run[r].p, FALSE, run[r].fault, run[r].dia) IN
        /\ run[r].outcome = i.outcome /\ run[r].seen = i.seen
        /\ (run[r].outcome = "ok" => run[r].warnings = Len(run[r].script) - Len(WithoutUnsup(run[r].script)))
 
